@@ -478,6 +478,9 @@ pub(crate) fn run_with_crash(
 /// Like `run_with_crash`, with an optional second crash at the j-th write point of the recovery
 /// (counted from the restart after the first crash). `CrashOutcome::recovery_writes` is the number
 /// of write points of the (first) recovery when no second crash is armed.
+/// see `run_with_crashes`
+pub(crate) static REPLAY_FILTERS_AFTER_RESTART: std::sync::atomic::AtomicBool = std::sync::atomic::AtomicBool::new(false);
+
 pub(crate) fn run_with_crashes(
     sc: &dyn Scenario,
     devs: &[(usize, Dev)],
@@ -525,8 +528,31 @@ pub(crate) fn run_with_crashes(
     let mut recovery_writes = 0u64;
     let mut writes = 0u64;
     let max = sc.max_steps();
+    // (REPLAY_FILTERS_AFTER_RESTART) the last BlockFilters answer delivered before the crash comes
+    // a second time after the restart, as soon as its sender is proven again and before anything
+    // else happens: a repeated / late answer that is not continuous with the filtered height
+    let replay_filters = REPLAY_FILTERS_AFTER_RESTART.load(std::sync::atomic::Ordering::SeqCst);
+    let mut last_filters: Option<crate::verif::driver::InFlight> = None;
     while step < max {
+        if replay_filters && !restarted {
+            if let Some(m) = sim.queue.front() {
+                if m.proto == crate::verif::net::Proto::Filter && crate::verif::scen::filter_kind(&m.data).as_deref() == Some("BlockFilters") {
+                    last_filters = Some(m.clone());
+                }
+            }
+        }
         let r = panics::catch(|| {
+            if replay_filters && restarted {
+                if let Some(m) = last_filters.clone() {
+                    let proven = sim.c().peers.get_state(&ckb_network::PeerIndex::new(m.peer)).map(|s| s.get_prove_state().is_some()).unwrap_or(false);
+                    if proven && sim.world.peer(m.peer).connected {
+                        last_filters = None;
+                        sim.deliver_msg(m);
+                        idle = 0;
+                        return true;
+                    }
+                }
+            }
             if let Some(d) = map.get(&step) {
                 apply_dev(sc, &mut sim, d);
                 idle = 0;
